@@ -175,7 +175,7 @@ func c19Outcome(err error) string {
 
 func TestC19(t *testing.T) {
 	R := ev.New("C19")
-	R.Rule = "every flag value is generated with its documented meaning: -rate = boundary N x {N, N/unit, N/multiple+unit} x 7 units x multiples (all of them also through the real flag set and attack()), every N of a contiguous range x every unit/multiple (Set + String + Set), the words 0/infinity, 8 malformed values, all ordered pairs over a pool of accepted rates; -max-body = numbers x every documented unit spelling x case variants x optional blank + README examples; -header = all sequences <= 3 (4) over 8 header texts; -connect-to = all sequences <= 3 (4) over 4 tuples + 3 malformed; -dns-ttl values; -resolvers = all lists <= 2 (3) over 8 addresses. A case is distinct by (flag, value sequence) and non-trivial when the manual gives it a meaning different from the flag's default or requires it to be rejected"
+	R.Rule = "every flag value is generated with its documented meaning: -rate = boundary N x {N, N/unit, N/multiple+unit} x 7 units x multiples (all of them also through the real flag set and attack()), every N of a contiguous range x every unit/multiple (Set + String + Set), the words 0/infinity, 8 malformed values, all ordered pairs over a pool of accepted rates; -max-body = numbers x every documented unit spelling x case variants x optional blank + README examples; -header = all sequences <= 3 (4) over 8 header texts; -connect-to = all sequences <= 3 (4) over 4 tuples + 3 malformed; -dns-ttl values; -resolvers = all lists <= 2 (3) over 9 addresses. A case is distinct by (flag, value sequence) and non-trivial when the manual gives it a meaning different from the flag's default or requires it to be rejected"
 	R.Assume("the Rate stored by the -rate flag is the pacer handed to Attacker.Attack (attack.go passes opts.rate unchanged; not observable without running an attack)")
 	R.Assume("negative N, a zero duration, and a malformed duration after N=0 (e.g. 0/1d, accepted today because the duration of an unlimited rate is never read) are not called malformed by the manual and are not asserted either way")
 	R.Assume("normalizeAddrs is private to internal/resolver and the driver builds one package per id: resolver addresses are checked through resolver.NewResolver (error / no error) and, for loopback addresses, through the RemoteAddr of the connection its Dial hook opens (UDP connect, no packet is sent)")
@@ -745,6 +745,7 @@ func TestC19(t *testing.T) {
 	rs := []rtext{
 		{"1.2.3.4", "1.2.3.4:53"}, {"1.2.3.4:53", "1.2.3.4:53"}, {"8.8.8.8:9000", "8.8.8.8:9000"},
 		{"127.0.0.2", "127.0.0.2:53"}, {"127.0.0.3:5353", "127.0.0.3:5353"},
+		{"127.0.0.2:5300", "127.0.0.2:5300"}, // the IP of another entry on another port: a resolver of its own
 		{"host", ""}, {"1.2.3.4:99999", ""}, {"127.0.0.500", ""},
 	}
 	rl := ev.Pick(2, 3)
